@@ -64,7 +64,8 @@ try:
     if a.store:
         dst = os.path.join("/verif/seeded", name)
         os.makedirs(dst, exist_ok=True)
-        shutil.copy(os.path.join(src, "patch.diff"), dst)
+        if os.path.abspath(dst) != src:
+            shutil.copy(os.path.join(src, "patch.diff"), dst)
         open(os.path.join(dst, "demo.py"), "w").write(re.sub(r"/tmp/wt/C\d+", "/repo", demo_src))
         meta["confirmed"] = {k: out.get(k) for k in ("demo_clean", "demo_patched", "patch_applies", "tests", "tests_ok")}
         meta["ran"] = f"tools/seedcheck.py (scratch copy of /repo + patch): demo clean/patched, baseline tests, ./check <id> --tier {a.tier} seed {a.seed}"
